@@ -168,6 +168,18 @@ func main() {
 	}
 	if *tier == "thorough" {
 		for _, id := range ids {
+			// the self-test edits the tree and expects the verdict to change accordingly: only meaningful when the
+			// unedited tree is clean for this property
+			dirty := false
+			for _, o := range results[id].sink.Obls {
+				if (o.Status == Violated || o.Status == Undecided) && known.match(id, o) == nil {
+					dirty = true
+				}
+			}
+			if dirty {
+				results[id].stats["selftest"] = "skipped: the tree itself is reported for this property"
+				continue
+			}
 			st := runSelfTest(*repo, *verif, id)
 			results[id].stats["selftest"] = st.summary
 			if st.broken {
